@@ -21,14 +21,33 @@ RULE = ('Crash points: every prefix length 0..N of the server-to-client byte '
         'ids), followed by end-of-stream; quick = every offset with eager '
         'delivery, and byte-wise delivery (one byte per quiescence) on every '
         '3rd offset plus all offsets within 3 bytes of a frame boundary; '
-        'thorough = every offset in both delivery modes.  Non-trivial = the cut falls inside the '
+        'thorough = every offset in both delivery modes.  x what follows '
+        'the cut on the SAME Connection object: {nothing further; the '
+        'exception handler starts the same conversation again (once); the '
+        'user does, after everything has ended} for the single-connection '
+        'conversations, and for the conversations with a status phase '
+        '(cut in the status connection) the library\'s own next connection '
+        '(fallback login with the default version, or the negotiated login '
+        'after a complete response) x environment {the server accepts it; '
+        'the server refuses every further TCP connection}.  Every later '
+        'connection runs to its end uncut and is judged in full: the '
+        'packets its listeners (early and ordinary) receive and the frames '
+        'its server receives must equal those of the same conversation on a '
+        'fresh Connection object.  A refused next connection must be '
+        'reported as ConnectionRefusedError to the exception handler and in '
+        'connection.exception, from a thread that ends without raising.  '
+        'Non-trivial = the cut falls inside the '
         'stream (0 < k < N); distinct = distinct (conversation, connection, '
-        'offset, delivery).')
+        'offset, delivery, what follows, refusal).')
 ASSUMPTIONS = ['vnet end-of-stream semantics (read returns b"" forever, '
                'select reports readable) match real sockets '
                '(selftest/vnet_conformance)',
                'a client that performs more than 16 reads after the first '
-               'empty read, or exceeds the step horizon, is spinning']
+               'empty read, or exceeds the step horizon, is spinning',
+               'what a later connection must deliver and send is taken from '
+               'an uncut run of the same conversation on a fresh Connection '
+               '(the reference runs; their server-side decoders report no '
+               'error and early and ordinary listeners agree)']
 
 K_READS = 16
 V = 757
@@ -61,14 +80,26 @@ CONVERSATIONS = {
                            ('compress', 32), ('success',)],
                     play=PLAY[:3]),
     'play': dict(kind='connect1', login=[('success',)], play=PLAY),
+    # reference only (never cut): what the documented fallback - one login
+    # with the default version - looks like on a fresh Connection
+    'login-default': dict(kind='connect1', version=47, login=[('success',)],
+                          play=[('keepalive', 7)], ref_only=True),
 }
+FALLBACK_REF = 'login-default'
+# what follows the cut: nothing / the exception handler starts the same
+# conversation again (once) / the user does, after everything has ended
+THENS = (None, 'handler', 'user')
 
 
-def body(W, name, cut, bytewise):
-    """cut = None (reference run) or (connection index, k)."""
+def body(W, name, cut, bytewise, then=None, refuse=False):
+    """cut = None (reference run) or (connection index, k).
+    then: None | 'handler' | 'user' - who starts the conversation again on
+    the same Connection after the cut.  refuse: every TCP connection after
+    the cut one is refused."""
     S = W.S
     cv = CONVERSATIONS[name]
-    delivered, errors, exits, statuses = [], [], [], []
+    delivered, early, errors, exits, statuses = [], [], [], [], []
+    st = {'restarts': 0, 'restart_error': None}
 
     def per_conn(i):
         d = {}
@@ -106,23 +137,59 @@ def body(W, name, cut, bytewise):
         W.serve(status={'json': status_json(protocol=V, name='1.18.1')},
                 login=cv['login'], play_script=cv['play'],
                 rsa=harness.rsa_key(), per_conn=per_conn)
-    kw = dict(handle_exception=lambda e, i: errors.append(type(e).__name__),
+    if refuse:
+        # the server is gone for good after the cut: it accepts no further
+        # TCP connection
+        if cut is None:
+            raise ToolError('refuse needs a cut')
+        inner = dict(W.net.endpoints)
+
+        class Endpoints(dict):
+            def get(self, key, default=None):
+                if len(W.net.conns) + W.net.refused > cut[0]:
+                    return 'refuse'
+                return inner.get(key, default)
+        W.net.endpoints = Endpoints()
+
+    def start():
+        if cv['kind'] == 'status':
+            conn.status(handle_status=statuses.append,
+                        handle_ping=lambda ms: statuses.append(('ping', ms)))
+        else:
+            conn.connect()
+
+    def restart():
+        st['restarts'] += 1
+        st['mark'] = (len(delivered), len(W.net.conns))
+        try:
+            start()
+        except Exception as e:      # observed, not judged here
+            st['restart_error'] = '%s: %s' % (type(e).__name__, e)
+
+    def on_exc(e, i):
+        errors.append(type(e).__name__)
+        if then == 'handler' and cut is not None and not st['restarts']:
+            restart()
+    kw = dict(handle_exception=on_exc,
               handle_exit=lambda: exits.append(1))
     if cv['kind'] == 'connect':
         kw['allowed_versions'] = set(cv['versions'])
         kw['initial_version'] = cv.get('initial', cv['versions'][1])
     elif cv['kind'] == 'connect1':
-        kw['allowed_versions'] = {V}
+        kw['allowed_versions'] = {cv.get('version', V)}
     conn = W.connection(**kw)
+
+    def desc(p):        # ping times depend on the virtual clock
+        return re.sub(r'time=-?\d+', 'time=T', harness.describe(p))
+    conn.register_packet_listener(lambda p: delivered.append(desc(p)),
+                                  W.C.packets.Packet)
+    # an early listener sees a packet before the built-in reaction (which
+    # may open the next TCP connection) runs: it knows which connection the
+    # packet came from
     conn.register_packet_listener(
-        lambda p: delivered.append(re.sub(r'time=-?\d+', 'time=T',
-                                          harness.describe(p))),
-        W.C.packets.Packet)      # ping times depend on the virtual clock
-    if cv['kind'] == 'status':
-        conn.status(handle_status=statuses.append,
-                    handle_ping=lambda ms: statuses.append(('ping', ms)))
-    else:
-        conn.connect()
+        lambda p: early.append((len(W.net.conns) - 1, desc(p))),
+        W.C.packets.Packet, early=True)
+    start()
     W.settle(1 if bytewise else None)
     if cut is None:
         # reference run: the server now closes every connection, so that the
@@ -139,6 +206,12 @@ def body(W, name, cut, bytewise):
         for s in W.servers:
             s.close()
         W.settle(1 if bytewise else None)
+        if then == 'user' and not S.live():
+            restart()
+            W.settle(1 if bytewise else None)
+            for s in W.servers:
+                s.close()
+            W.settle(1 if bytewise else None)
     live = S.live()
     return {
         'delivered': delivered, 'errors': errors, 'exits': len(exits),
@@ -150,7 +223,28 @@ def body(W, name, cut, bytewise):
         'handshakes': [s.handshake for s in W.servers],
         'thread_exc': [type(a.exc).__name__ for a in S.agents
                        if a.exc is not None],
+        'early': early, 'sent': [_sent(s) for s in W.servers],
+        'refused': W.net.refused,
+        'recorded': type(conn.exception).__name__
+        if conn.exception is not None else None,
+        'restarts': st['restarts'], 'restart_error': st['restart_error'],
+        'mark': st.get('mark'),
     }
+
+
+def _sent(srv):
+    """What one server received from the client, as its independent decoder
+    saw it.  Left out: the RSA ciphertexts of the encryption response
+    (random padding; a wrong secret or token is in srv.errors) and the
+    payload of the status ping (the virtual clock)."""
+    frames = []
+    for f in srv.frames:
+        state, pid, payload = f[0], f[1], f[2]
+        if (state, pid) in (('login', 1), ('status', 1)):
+            payload = b''
+        frames.append((state, pid, bytes(payload).hex()) + tuple(f[3:]))
+    return {'handshake': srv.handshake, 'frames': frames,
+            'errors': list(srv.errors)}
 
 
 def _frame_ends(W, c):
@@ -158,14 +252,16 @@ def _frame_ends(W, c):
     return getattr(c, 'frame_ends', ())
 
 
-def run_one(name, cut, bytewise):
-    x = harness.run(lambda W: body(W, name, cut, bytewise), horizon=200000,
-                    hold=bytewise, eof_read_limit=K_READS)
+def run_one(name, cut, bytewise, then='', refuse=False):
+    x = harness.run(lambda W: body(W, name, cut, bytewise, then or None,
+                                   refuse),
+                    horizon=200000, hold=bytewise, eof_read_limit=K_READS)
     return x
 
 
-def judge(name, cut, bytewise, ref, x):
-    """-> list of (key suffix, what)."""
+def judge(name, cut, bytewise, ref, x, then='', refuse=False, fb=None):
+    """-> list of (key suffix, what).  fb: reference run of the fallback
+    login (conversations with a status phase)."""
     out = []
     ci, k = cut
     if x.failure is not None:
@@ -178,12 +274,13 @@ def judge(name, cut, bytewise, ref, x):
     if r['live']:
         out.append(('never-terminates', 'after end of stream these threads '
                     'are still alive: %s' % r['live']))
-    if r['conns'] > len(ref['streams']):
+    allowed = len(ref['streams']) * (2 if r['restarts'] else 1)
+    if r['conns'] > allowed:
         out.append(('reconnect-loop', 'the client opened %d TCP connections '
                     '(the complete conversation needs %d): an unanswered '
                     'status query must lead to ONE fallback login with the '
                     'default version or to an error, not to another query'
-                    % (r['conns'], len(ref['streams']))))
+                    % (r['conns'], allowed)))
     if max(r['reads_after_eof'] + [0]) > K_READS:
         out.append(('reads-after-eof', '%r reads after the first empty read'
                     % r['reads_after_eof']))
@@ -196,6 +293,13 @@ def judge(name, cut, bytewise, ref, x):
     base = ref['per_conn_first'][ci]
     want_min = refd[:base + nfull]
     got = r['delivered']
+    if refuse:
+        # (when the refused connect() is the built-in reaction to the
+        # status response, ordinary listeners rightly never see that
+        # packet: the early listeners are the ones to ask)
+        got = [d for _, d in r['early']]
+    if r['mark'] is not None:
+        got = got[:r['mark'][0]]    # up to the restart by handler / user
     if got[:len(want_min)] != want_min[:len(got)] or \
             (len(got) < len(want_min) and not _closed_early(r, ci)):
         out.append(('delivery', 'packets delivered differ from the frames '
@@ -220,11 +324,101 @@ def judge(name, cut, bytewise, ref, x):
         if not fallback:
             out.append(('silent', 'the client reached the end of the stream '
                         'but reported no error and took no fallback'))
+    if refuse:
+        # the fallback login (or, after a complete response, the login) is
+        # refused: that error is the one to report, inside the thread
+        if 'ConnectionRefusedError' not in r['errors'] or \
+                r['recorded'] != 'ConnectionRefusedError':
+            out.append(('refusal-not-reported', 'the server refused the '
+                        'TCP connection of the login that follows the status '
+                        'query (%d refused): the exception handler saw %r, '
+                        'connection.exception is %r, expected '
+                        'ConnectionRefusedError in both'
+                        % (r['refused'], r['errors'], r['recorded'])))
+        if r['thread_exc']:
+            out.append(('escaped-the-thread', 'the server refused the TCP '
+                        'connection of the login that follows the status '
+                        'query: %r escaped from the networking thread '
+                        'although a final handler is configured'
+                        % (r['thread_exc'],)))
+    # whatever a later connection of the same Connection object delivers
+    # and sends is exactly what the same conversation delivers and sends on
+    # a fresh object: nothing of the cut connection may leak into it
+    exp = None if any(key == 'reconnect-loop' for key, _ in out) else \
+        follow_up(name, ci, k, then, ref, fb, r)
+    if exp is not None:
+        first_later, exp_early, exp_deliv, exp_sent, why = exp
+        later_early = [d for t, d in r['early'] if t >= first_later]
+        later_deliv = r['delivered'][r['mark'][0]:] \
+            if r['mark'] is not None else None
+        later_sent = r['sent'][first_later:]
+        bad = None
+        if later_early != exp_early:
+            bad = ('early listeners', later_early, exp_early)
+        elif exp_deliv is not None and later_deliv != exp_deliv:
+            bad = ('listeners', later_deliv, exp_deliv)
+        if bad is not None:
+            n = next((i for i, (a, b) in enumerate(zip(bad[1], bad[2]))
+                      if a != b), min(len(bad[1]), len(bad[2])))
+            out.append(('later-connection-delivery',
+                        '%s: on the connection(s) after the cut %s received '
+                        '%d packets, the servers sent %d complete ones; '
+                        'first difference at index %d: got %r, sent %r'
+                        % (why, bad[0], len(bad[1]), len(bad[2]), n,
+                           (bad[1][n:n + 1] or ['nothing'])[0][:120],
+                           (bad[2][n:n + 1] or ['nothing'])[0][:120])))
+        elif later_sent != exp_sent:
+            out.append(('later-connection-sent',
+                        '%s: what the client sent on the connection(s) '
+                        'after the cut differs from the same conversation '
+                        'on a fresh object: %r, expected %r'
+                        % (why, _brief(later_sent), _brief(exp_sent))))
     return out
 
 
+def _brief(sent):
+    return [(s['handshake'] and s['handshake']['protocol'],
+             [(f[0], f[1], f[2][:16]) for f in s['frames'][:6]],
+             s['errors'][:2]) for s in sent]
+
+
+def follow_up(name, ci, k, then, ref, fb, r):
+    """What connections after the cut one must look like: None (not
+    judged), or (index of the first later connection, packets early
+    listeners get, packets ordinary listeners get after the restart mark or
+    None, what each later server receives, description)."""
+    cv = CONVERSATIONS[name]
+    if then:
+        if not r['restarts']:
+            # (the handler never ran: the conversation ended by itself)
+            return (ci + 1, [], None, [], 'no error, nothing restarted')
+        if r['restart_error']:
+            return None
+        return (r['mark'][1], [d for _, d in ref['early']],
+                ref['delivered'], ref['sent'],
+                'the %s started the same conversation again on the same '
+                'Connection' % ('exception handler' if then == 'handler'
+                                else 'user'))
+    if cv['kind'] == 'connect' and ci == 0 and r['conns'] > 1:
+        total, ends = ref['streams'][0]
+        if k < ends[0]:
+            return (1, [d for _, d in fb['early']], None, fb['sent'],
+                    'fallback login with the default version after the '
+                    'unanswered status query')
+        return (1, [d for t, d in ref['early'] if t > 0], None,
+                ref['sent'][1:], 'login after the complete status response')
+    return (ci + 1, [], None, [], 'no later connection')
+
+
 def _closed_early(r, ci):
-    return ci < len(r['client_closed_first']) and r['client_closed_first'][ci]
+    """The client stopped reading connection ci before its end of stream:
+    it closed the socket, or (an error reported; the exception handler has
+    started a new connection, which leaves the old transport alone) the
+    restart happened without any read having met the end of the stream."""
+    if ci >= len(r['client_closed_first']):
+        return False
+    return r['client_closed_first'][ci] or (
+        r['mark'] is not None and r['reads_after_eof'][ci] == 0)
 
 
 def reference(name):
@@ -232,6 +426,9 @@ def reference(name):
     if x.failure or x.result['live'] is None:
         raise ToolError('reference run of %s failed: %r' % (name, x.failure))
     r = x.result
+    if any(s['errors'] for s in r['sent']):
+        raise ToolError('reference run of %s: server-side decode errors %r'
+                        % (name, r['sent']))
     # how many packets were delivered before the first frame of each
     # connection: connections are used one after the other
     per = []
@@ -240,10 +437,23 @@ def reference(name):
         per.append(n)
         n += len(ends)
     r['per_conn_first'] = per
+    if [t for t, _ in r['early']] != [i for i, (_, ends) in enumerate(
+            r['streams']) for _ in ends] or \
+            [d for _, d in r['early']] != r['delivered']:
+        raise ToolError('reference run of %s: early listeners saw %r, '
+                        'ordinary listeners %r, frames per connection %r'
+                        % (name, r['early'], r['delivered'], r['streams']))
     r['fallback_ok'] = lambda ci, rr: (
         CONVERSATIONS[name]['kind'] == 'connect' and ci == 0
         and rr['conns'] >= 2)
     return r
+
+
+def get_ref(name):
+    ref = REFS.get(name)
+    if ref is None:
+        ref = REFS[name] = reference(name)
+    return ref
 
 
 def offsets(ctx, total, ends, quick_stride):
@@ -257,34 +467,51 @@ def offsets(ctx, total, ends, quick_stride):
 
 
 def w_cut(ctx, task):
-    name, ci, k, bytewise, refpack = task
-    ref = REFS.get(name)
-    if ref is None:
-        ref = REFS[name] = reference(name)
-    x = run_one(name, (ci, k), bytewise)
+    name, ci, k, bytewise, then, refuse = task
+    ref = get_ref(name)
+    fb = get_ref(FALLBACK_REF) \
+        if CONVERSATIONS[name]['kind'] == 'connect' else None
+    x = run_one(name, (ci, k), bytewise, then, refuse)
     ctx.count()
     total = ref['streams'][ci][0]
     if 0 < k < total:
-        ctx.note((name, ci, k, bytewise))
+        ctx.note((name, ci, k, bytewise, then, refuse))
     on_boundary = k in ref['streams'][ci][1] or k in (0, total)
-    ctx.cls('%s conn%d %s %s' % (name, ci, 'bytewise' if bytewise
-                                 else 'eager',
-                                 'boundary' if on_boundary else 'mid-frame'))
+    variant = (' then=%s' % then if then else '') + \
+        (' next-connection-refused' if refuse else '')
+    ctx.cls('%s conn%d %s %s%s' % (name, ci, 'bytewise' if bytewise
+                                   else 'eager',
+                                   'boundary' if on_boundary else 'mid-frame',
+                                   variant))
     if x.failure is None:
         r = x.result
-        ctx.outcome('%s: errors=%s exits=%d conns=%d' % (
+        ctx.outcome('%s: errors=%s exits=%d conns=%d%s' % (
             name, ','.join(sorted(set(r['errors']))) or '-', r['exits'],
-            r['conns']))
+            r['conns'], variant))
+        if r['conns'] > ci + 1 and not on_boundary:
+            ctx.cls('a later connection followed a cut inside a frame: %s%s'
+                    % (name, variant))
+        if refuse and r['refused']:
+            ctx.cls('a connection after the cut was refused: %s' % name)
+        if r['restart_error']:
+            ctx.outcome('%s: restart by the %s failed: %s'
+                        % (name, then, r['restart_error']))
     else:
         ctx.outcome('%s: %s' % (name, x.failure[0]))
-    for key, what in judge(name, (ci, k), bytewise, ref, x):
-        ctx.violation('%s conn%d %s %s' % (
-            name, ci, 'mid-frame' if not on_boundary else 'boundary', key),
+    for key, what in judge(name, (ci, k), bytewise, ref, x, then, refuse, fb):
+        ctx.violation('%s conn%d %s%s %s' % (
+            name, ci, 'mid-frame' if not on_boundary else 'boundary',
+            variant, key),
             '%s: server stream of connection %d cut after %d of %d bytes '
-            '(%s delivery): %s' % (name, ci, k, total,
-                                   'byte-wise' if bytewise else 'eager',
-                                   what),
-            {'name': name, 'conn': ci, 'k': k, 'bytewise': bytewise})
+            '(%s delivery%s%s): %s' % (
+                name, ci, k, total, 'byte-wise' if bytewise else 'eager',
+                '; afterwards the %s starts the conversation again'
+                % ('exception handler' if then == 'handler' else 'user')
+                if then else '',
+                '; the server accepts no further TCP connection'
+                if refuse else '', what),
+            {'name': name, 'conn': ci, 'k': k, 'bytewise': bytewise,
+             'then': then, 'refuse': refuse})
 
 
 REFS = {}
@@ -297,22 +524,54 @@ def run(ctx):
     sub = ctx.fork()
     sub.pmap(w_ref, sorted(CONVERSATIONS))
     refs = dict(sub.extra.get('refs', []))
+    need = []
     for name in sorted(CONVERSATIONS):
+        cv = CONVERSATIONS[name]
+        if cv.get('ref_only'):
+            continue
         streams = refs[name]
         for ci, (total, ends) in enumerate(streams):
-            if CONVERSATIONS[name].get('all_status') and ci > 0:
+            if cv.get('all_status') and ci > 0:
                 continue        # only the status stream is cut here
-            for k in offsets(ctx, total, ends, 1):
-                tasks.append((name, ci, k, False, None))
-            for k in offsets(ctx, total, ends, 3):
-                tasks.append((name, ci, min(k, total), True, None))
+            eager = offsets(ctx, total, ends, 1)
+            bytew = [min(k, total) for k in offsets(ctx, total, ends, 3)]
+            for k in eager:
+                tasks.append((name, ci, k, False, '', False))
+            for k in bytew:
+                tasks.append((name, ci, k, True, '', False))
+            if cv['kind'] in ('status', 'connect1'):
+                # the same Connection is used again after the cut
+                for then in THENS[1:]:
+                    for k in eager:
+                        tasks.append((name, ci, k, False, then, False))
+                    for k in bytew:
+                        tasks.append((name, ci, k, True, then, False))
+                    need.append('a later connection followed a cut inside '
+                                'a frame: %s then=%s' % (name, then))
+            elif ci == 0:
+                # status phase of a connect(): the login that follows (the
+                # fallback or the negotiated one) is refused
+                for k in eager:
+                    tasks.append((name, ci, k, False, '', True))
+                for k in bytew:
+                    tasks.append((name, ci, k, True, '', True))
+                need.append('a connection after the cut was refused: %s'
+                            % name)
+                need.append('a later connection followed a cut inside a '
+                            'frame: %s' % name)
         ctx.extra['stream_bytes_' + name] = [t for t, _ in streams]
     tasks = sorted(set(tasks))
     ctx.pmap(w_cut, tasks, chunksize=4)
     ctx.sample({'conversation': 'encrypt', 'connection': 0, 'cut_after': 37,
                 'delivery': 'eager'})
+    ctx.sample({'conversation': 'play', 'connection': 0, 'cut_after': 120,
+                'delivery': 'eager', 'then': 'user'})
     ctx.sample({'conversation': 'play', 'streams(bytes,frame ends)':
                 refs['play']})
+    if not ctx.violations:
+        for n in need:
+            if not ctx.classes.get(n):
+                raise ToolError('vacuity guard: class %r was never hit' % n)
 
 
 def w_ref(ctx, name):
@@ -321,7 +580,6 @@ def w_ref(ctx, name):
 
 
 def replay(ctx, case):
-    ref = reference(case['name'])
-    REFS[case['name']] = ref
+    REFS.clear()
     w_cut(ctx, (case['name'], case['conn'], case['k'], case['bytewise'],
-                None))
+                case.get('then') or '', bool(case.get('refuse'))))
